@@ -1,25 +1,34 @@
 /-
   C10 (area heap) — the heap scan never faults, for every byte string.
+  The model's slice/index primitives check against the length of the slice they are given (Go checks
+  re-slicing against capacity), so "no fault" here means: no Go panic AND no read beyond the page/tuple slice.
 -/
-import PgVerif.Proofs.Heap
+import PgVerif.Proofs.HeapFile
 namespace PgVerif.Props.C10.Heap
 open PgVerif PgVerif.Model PgVerif.Proofs
 
-/-- ParseHeapTuple returns (a tuple or nil) for every byte string: no index or slice expression in it
-can be out of range. -/
-theorem C10_total_parseHeapTuple (data : Bytes) : ∃ r, parseHeapTuple data = .ok r := by
-  unfold parseHeapTuple
-  by_cases h : data.length < 23
-  · simp [h]
-  · simp (disch := omega) only [h, if_false, uN_ok, idx_ok, ok_bind, pure_eq_ok]
-    split
-    · exact ⟨_, rfl⟩
-    · simp (disch := omega) only [sliceFrom_ok, ok_bind]
-      split
-      · split
-        · simp (disch := omega) only [slice_ok, ok_bind]
-          exact ⟨_, rfl⟩
-        · exact ⟨_, rfl⟩
-      · exact ⟨_, rfl⟩
+/-- ParseHeapTuple returns (a tuple or nil) for every byte string. -/
+theorem C10_total_parseHeapTuple (data : Bytes) : ∃ r, parseHeapTuple data = .ok r :=
+  parseHeapTuple_total data
+
+/-- ParsePage returns for every byte string (any header, any pointer array, any tuple bytes). -/
+theorem C10_total_parsePage (data : Bytes) : ∃ r, parsePage data = .ok r :=
+  parsePage_total data
+
+/-- ReadTuples returns for every byte string and both settings of the visibility switch. -/
+theorem C10_total_readTuples (data : Bytes) (vis : Bool) : ∃ r, readTuples data vis = .ok r :=
+  readTuplesFrom_total data vis _ 0
+
+/-- Page isolation for heap scans, arbitrary bytes: replacing the bytes after a page-aligned prefix `a` does not
+change what is reported for `a`'s pages, and replacing `a` by another prefix of the same length does not change
+what is reported for the rest (both are immediate from the concatenation law). -/
+theorem C10_isolate_heap (a b b' : Bytes) (vis : Bool) (h : a.length % 8192 = 0)
+    (ra rb rb' : List TupleEntry) (h1 : readTuples a vis = .ok ra) (h2 : readTuples b vis = .ok rb)
+    (h3 : readTuples b' vis = .ok rb') :
+    readTuples (a ++ b) vis = .ok (ra ++ rb.map (shiftE a.length)) ∧
+    readTuples (a ++ b') vis = .ok (ra ++ rb'.map (shiftE a.length)) := by
+  constructor
+  · rw [readTuples_append a b vis (a.length / 8192) (by omega), h1, h2]; rfl
+  · rw [readTuples_append a b' vis (a.length / 8192) (by omega), h1, h3]; rfl
 
 end PgVerif.Props.C10.Heap
